@@ -650,6 +650,14 @@ func main() {
 			}
 		}
 	}
+	// the catalogue once more, as the inline condition of the finishers
+	for round := 0; round < rounds; round++ {
+		atoms := whr.GenAtoms(r, names, nicks)
+		g := whr.NewGen(r, atoms)
+		for _, ch := range g.InlinePatternChains() {
+			add("pattern-inline", Input{Rows: genRows(r), Atoms: atoms, Chain: ch})
+		}
+	}
 	for round := 0; round < rounds; round++ {
 		atoms := whr.FullAtoms(r)
 		g := whr.NewGen(r, atoms)
